@@ -158,8 +158,44 @@ def run_grammar(acc, fam, cid, level):
         acc.outcome("build-rejected:" + type(e).__name__)
         return
     judge(acc, pb, fam, _label(cid), {"family": fam, "cid": tj(cid)}, level)
+    if fam == "uprob":
+        staged(acc, ps, cid, level)
     if level >= 1:
         acc.sample({"family": fam, "cid": tj(cid)}, limit=1)
+
+
+def staged(acc, ps, cid, level):
+    """History variant: the same problem built in two stages - every action's FIRST effect is
+    withheld, `kind` (and the static-fluent analysis) is queried on the partial model, then the
+    withheld effects are added to the actions that are already inside the problem.  The kind
+    of the finished model must not depend on the earlier query."""
+    from unified_planning.exceptions import UPException
+
+    ps2 = dict(ps)
+    held = {}
+    acts = []
+    for a in ps["actions"]:
+        if a["eff"]:
+            held[a["name"]] = a["eff"][0]
+            acts.append(dict(a, eff=tuple(a["eff"][1:])))
+        else:
+            acts.append(a)
+    if not held:
+        return
+    ps2["actions"] = tuple(acts)
+    try:
+        pb, ctx = gp.build_problem(ps2)
+        pb.kind
+        pb.get_static_fluents()
+        for an, e in held.items():
+            act = pb.action(an)
+            ctx.params = {p.name: p for p in act.parameters}
+            gp.add_effect(ctx, act, e)
+        ctx.params = {}
+    except UPException as e:
+        acc.count("skipped_rejected_at_build")
+        return
+    judge(acc, pb, "uprob-staged", _label(cid), {"family": "uprob-staged", "cid": tj(cid)}, level)
 
 
 _CORPUS = {}
@@ -209,7 +245,7 @@ def replay(case):
     elif fam == "corpus":
         run_corpus(acc, case["which"], only=case["name"])
     else:
-        run_grammar(acc, fam, tuple(tuple(x) for x in case["cid"]), case.get("_level", 0))
+        run_grammar(acc, "uprob" if fam == "uprob-staged" else fam, tuple(tuple(x) for x in case["cid"]), case.get("_level", 0))
     return [(fp, e["cases"][0]["what"]) for fp, e in acc.viol.items()]
 
 
